@@ -4,6 +4,8 @@
   fails its companion only; the property theorems (about the model) stay discharged.
 -/
 import JRV.Model.Wire
+import JRV.Model.WireSession
+import JRV.Properties.C17
 import JRV.Generated
 
 namespace JRV.Props
@@ -34,5 +36,28 @@ theorem C17_gen_targetForwarded : Generated.targetForwarded = some (true, true) 
 theorem C17_gen_fromBytesCodec : Generated.fromBytesCodec = some ("utf-8", false) := by decide
 /-- `utils.to_bytes` encodes with the strict UTF-8 codec: the model's `Wire.toBytes` (`String.toUTF8`). -/
 theorem C17_gen_toBytesCodec : Generated.toBytesCodec = some ("utf-8", false) := by decide
+
+/- ===== one transport, a sequence of responses (tools/extractors/wiresession.py; model JRV.Model.WireSession) ===== -/
+
+/-- `TransportMixIn.getparser` builds a new `JSONTarget()` on every call and returns `(JSONParser(it), it)`: the model's
+    `SessionCfg.freshParser`. -/
+theorem C17_gen_getparserFresh : Generated.getparserFresh = some true := by decide
+/-- `JSONTarget.__init__` gives every instance a buffer of its own (`self.data = []`): `SessionCfg.ownBuffer`. -/
+theorem C17_gen_targetOwnBuffer : Generated.targetOwnBuffer = some true := by decide
+
+/-- The session configuration the extracted facts stand for … -/
+def sessionCfgOfFacts : Option SessionCfg := do
+  let f ← Generated.getparserFresh
+  let o ← Generated.targetOwnBuffer
+  pure { freshParser := f, ownBuffer := o }
+
+/-- … is the one `C17_session_independent` asks for: with its hypotheses discharged from the source, every response of
+    every sequence through one transport has the outcome it would have on a transport that never parsed anything. -/
+theorem C17_gen_session_independent (cfg : SessionCfg) (h : sessionCfgOfFacts = some cfg) (st : TState) (rs : List Resp) :
+    session cfg st rs = rs.map parseAlone := by
+  have hc : sessionCfgOfFacts = some {} := by decide
+  rw [hc] at h
+  cases h
+  exact C17_session_independent _ rfl rfl st rs
 
 end JRV.Props
